@@ -26,6 +26,7 @@ CL2 = "C20: 'leaves the in-memory model exactly as it was'"
 CL3 = "C20: 'writes a model file and a sibling data file'"
 
 Uninit = z3.Function("Uninit", z3.IntSort(), z3.BoolSort())
+IsInput = z3.Function("IsInput", z3.IntSort(), z3.BoolSort())  # initializer j is also a graph input
 
 
 def _forbid(what):
@@ -51,6 +52,11 @@ def s_save(ctx):
         t = own(SObj(ir.Tensor, "tensor", lazy=_forbid("tensor")))
         t.fields.update(name=Opaque("tname"), dtype=Opaque("dtype"), shape=Opaque("shape"))
         v.fields.update(name=Opaque("vname"), const_value=SOpt(Uninit(j), t))
+
+        def is_graph_input():
+            raise AssertionError
+        I.models[is_graph_input] = lambda interp, j=j: SBool(IsInput(j))
+        v.fields["is_graph_input"] = is_graph_input
         return v
     inits_seq = SSeq(n, elem, name="initializers")
 
@@ -163,6 +169,62 @@ def s_save(ctx):
         ctx.check("C20.save.data_path_is_relative", z3.Not(z3.Contains(term(ed), slash)), CL3)
 
 
+def s_save_bounded(ctx):
+    """Bounded companion: up to 2 initializers (uninitialized / in-memory / already external), ir.save may fail
+    with OSError; at EVERY exit the model must be exactly as it was (transient changes must be undone on failure too)."""
+    import onnx_ir as ir
+    from onnxscript._framework_apis import torch_2_5
+    I = Interp(ctx)
+    k = ctx.choose(3, "n_initializers")
+    vals = []
+    for j in range(k):
+        kind = ctx.choose(3, f"init{j}")  # 0 uninitialized, 1 in-memory, 2 external
+        v = SObj(ir.Value, f"init{j}")
+        t = None if kind == 0 else SObj(ir.ExternalTensor if kind == 2 else ir.Tensor, f"tensor{j}")
+        if t is not None:
+            t.fields.update(name=f"t{j}", dtype=Opaque("dtype"), shape=Opaque("shape"))
+        v.fields.update(name=f"w{j}", const_value=t)
+        vals.append(v)
+
+    class Inits(dict):
+        pass
+    inits = Inits((f"w{j}", v) for j, v in enumerate(vals))
+    graph = SObj(ir.Graph, "graph", lazy=_forbid("model.graph"))
+    graph.fields["initializers"] = inits
+    model = SObj(ir.Model, "model", lazy=_forbid("model"))
+    model.fields["graph"] = graph
+    snapshot = [(v, dict(v.fields)) for v in vals] + [(graph, dict(graph.fields)), (model, dict(model.fields))]
+    snap_t = [(v.fields["const_value"], dict(v.fields["const_value"].fields)) for v in vals if v.fields["const_value"] is not None]
+    I.models[importlib.util.find_spec] = lambda interp, name: None
+    fail = ctx.choose(2, "ir.save fails") == 1
+    saves = []
+
+    def m_save(interp, m, p, *rest, **kw):
+        saves.append((m, p, kw))
+        if fail:
+            raise PyRaise(OSError("disk full"))
+    I.models[ir.save] = m_save
+
+    def m_convert(interp, tensors):
+        return [SObj(ir.Tensor, "loaded") for _ in interp.iterate(tensors)]
+    I.models[ir.external_data.convert_tensors_from_external] = m_convert
+    clo = I.closure_of(torch_2_5.save_model_with_external_data)
+    raised = None
+    try:
+        I.run_closure(clo, [model, "dir/m.onnx", False], {})
+    except PyRaise as e:
+        raised = e.exc
+    same = all(o.fields == f0 for o, f0 in snapshot) and all(t.fields == f0 for t, f0 in snap_t) and \
+        list(inits.items()) == [(f"w{j}", v) for j, v in enumerate(vals)]
+    ctx.check("C20.save.bounded.model_exactly_as_before_at_every_exit" + (".when_save_fails" if raised and saves else ""), same, CL2)
+    if any(v.fields["const_value"] is None for v in vals) and not saves:
+        ctx.check("C20.save.bounded.uninitialized_refused_with_ValueError", isinstance(raised, ValueError), CL1)
+    elif any(v.fields["const_value"] is None for v in vals):
+        ctx.check("C20.save.bounded.uninitialized_refused_before_saving", False, CL1)
+    if fail and saves:
+        ctx.check("C20.save.bounded.io_error_propagates", isinstance(raised, OSError), CL2)
+
+
 SCENARIOS = [
     Scenario("C20.save_model_with_external_data", s_save,
              [(REL, "save_model_with_external_data"), (REL, "save_model_with_external_data.callback")],
@@ -170,4 +232,7 @@ SCENARIOS = [
                       "pathlib.Path(p).name is the last path component (POSIX separator)",
                       "tqdm progress bar object is independent of the model"],
              assumptions=["model_path is a str with a non-empty last component; os.PathLike arguments not modelled"]),
+    Scenario("C20.save_model_with_external_data[bounded, failing save]", s_save_bounded,
+             [(REL, "save_model_with_external_data")], kind="bounded",
+             bound="at most 2 initializers, each uninitialized / in-memory / already external; ir.save succeeds or raises OSError"),
 ]
